@@ -343,7 +343,7 @@ PROPS = {
     "C09": {
         "eval_counter": "count_probes",
         "case_counter": "grammars",
-        "rule": "EXHAUSTIVE enumeration of all 0<=m<=n<=N (N=18 quick / 44 thorough for Lark, 13 / 34 for JSON; crosses n=12 and every "
+        "rule": "EXHAUSTIVE enumeration of all 0<=m<=n<=N (N=18 quick / 66 thorough for Lark, 13 / 50 for JSON; crosses n=12 and every "
                 "multiple of 4) plus {m,} * + ?, for each of: rule-level x{m,n} (with and without delimiters), terminal-level, regex-level "
                 "(inline /../ and from_regex) over the elements \"a\", \"ab\", (\"a\"|\"b\"), /[a-c]/; JSON min/maxItems (items and "
                 "prefixItems+items), min/maxLength (1..4-byte characters, escapes, \\uXXXX incl. surrogate pairs with the option, with "
